@@ -34,6 +34,7 @@ import AskarModel.Model.Sign
 import AskarModel.Lemmas.Sign
 import AskarModel.Model.Seed
 import AskarModel.Lemmas.Seed
+import AskarModel.Generated.Tables
 
 namespace Askar.C13
 open Askar.Sign Askar.Crypto
@@ -424,5 +425,13 @@ example : ∃ s, Seed.anyCreateSignature Toy.schemes (Key.ofSecret Toy.schemes .
   ⟨_, rfl, by decide⟩
 example : Seed.signatureLengthOf "ES-384".toList = .ok 96 := by decide
 example : Seed.signatureLengthOf "es385".toList = .err .unsupported := by decide
+
+
+/-! ### the signature widths are the source's (regenerated from askar-crypto/src/alg/{p256,k256,p384}.rs on every run) -/
+
+/-- `SignatureType.signatureLength` of the three ECDSA types equals `ES256_SIGNATURE_LENGTH`, `ES256K_…`, `ES384_…` of the CURRENT source -/
+theorem signature_lengths_match_source :
+    [("es256", Askar.Sign.SignatureType.es256.signatureLength), ("es256k", Askar.Sign.SignatureType.es256k.signatureLength),
+     ("es384", Askar.Sign.SignatureType.es384.signatureLength)] = Askar.Generated.Tables.ecdsaSignatureLengths := by decide
 
 end Askar.C13
